@@ -232,5 +232,19 @@ pub fn programs() -> Vec<(String, Program)> {
         ];
         out.push(("compact-params".into(), Program { defs, roots: vec![Src::App(4, vec![]), Src::App(3, vec![])] }));
     }
+    // 11. a generic type used inside a generic parent with the parent's parameters in swapped /
+    //     nested positions (substitution rules see the resolved arguments `_1`, `_0`)
+    {
+        let defs = vec![
+            strukt(&["s", "Pair"], &[("T", false), ("U", false)], vec![f(Some("l"), Src::Param(0)), f(Some("r"), Src::Param(1))]),
+            strukt(&["s", "Outer"], &[("X", false), ("Y", false)], vec![
+                f(Some("p"), Src::App(0, vec![Src::Param(1), Src::Param(0)])),
+                f(Some("q"), Src::App(0, vec![Src::Vec(bx(Src::Param(1))), Src::Opt(bx(Src::Param(0)))])),
+                f(Some("same"), Src::App(0, vec![Src::Param(0), Src::Param(1)])),
+            ]),
+        ];
+        let roots = vec![Src::App(1, vec![Src::Prim("u16"), Src::Prim("i64")]), Src::App(1, vec![Src::Prim("char"), Src::Prim("u64")])];
+        out.push(("swapped-params".into(), Program { defs, roots }));
+    }
     out
 }
